@@ -267,7 +267,8 @@ func (in *Interp) convert(from, to types.Type, x value) value {
 	if fint && isFloat(to) {
 		t := x.(*Term)
 		if !t.IsConst() {
-			panic(unsupported("conversion of a symbolic integer to float"))
+			// opaque: only metrics and log lines consume such values; any arithmetic on it is refused
+			return symFloat{t}
 		}
 		var f float64
 		if fsigned {
@@ -418,6 +419,10 @@ func (in *Interp) divByConst(x, c *Term, signed bool) (q, r *Term, ok bool) {
 			in.ghost[key] = [2]*Term{q, r}
 			return q, r, true
 		}
+	}
+	if q, r, ok := in.divLinearMultiple(x, c, signed); ok {
+		in.ghost[key] = [2]*Term{q, r}
+		return q, r, true
 	}
 	// range shortcut: 0 <= x < c (confirmed by the solver) gives q = 0, r = x
 	{
@@ -608,4 +613,70 @@ func (in *Interp) linearSignCmp(op token.Token, x, y *Term) *Term {
 		return ts.Not(pos)
 	}
 	return nil
+}
+
+// divLinearMultiple handles x = s*C + k divided by c where C = m*c, for non-negative s and
+// 0 <= k < C (confirmed by the solver): x/c = s*m + k/c, x%c = k%c.
+func (in *Interp) divLinearMultiple(x, c *Term, signed bool) (q, r *Term, ok bool) {
+	ts := in.ts
+	w := x.w
+	if x.op != OpAdd && x.op != OpMul {
+		return nil, nil, false
+	}
+	var big *Term
+	find := func(t *Term) {
+		if t.op == OpMul && t.a[1].IsConst() && t.a[1].val > c.val && t.a[1].val%c.val == 0 {
+			big = t.a[1]
+		}
+	}
+	find(x)
+	if big == nil && x.op == OpAdd {
+		find(x.a[0])
+		if big == nil {
+			find(x.a[1])
+		}
+	}
+	if big == nil {
+		return nil, nil, false
+	}
+	s, k, okf := linearForm(x, big)
+	if !okf {
+		return nil, nil, false
+	}
+	C := big.val
+	m := C / c.val
+	lim := (mask(w) >> 1) / C
+	if lim < 2 {
+		return nil, nil, false
+	}
+	zero := ts.BV(w, 0)
+	var cond *Term
+	if signed {
+		cond = ts.And(ts.Cmp(OpSle, zero, s), ts.Cmp(OpSle, s, ts.BV(w, lim-1)))
+		if k != nil {
+			cond = ts.And(cond, ts.And(ts.Cmp(OpSle, zero, k), ts.Cmp(OpSlt, k, big)))
+		}
+	} else {
+		cond = ts.Cmp(OpUle, s, ts.BV(w, lim-1))
+		if k != nil {
+			cond = ts.And(cond, ts.Cmp(OpUlt, k, big))
+		}
+	}
+	if res, _ := in.ctx.Check(ts.Not(cond), in.ctx.branchTO, nil); res != Unsat {
+		return nil, nil, false
+	}
+	in.P.noteModelName("(s*C + k) / c with c | C computed as s*(C/c) + k/c after the solver confirmed 0 <= s, 0 <= k < C and no overflow")
+	sm := ts.Arith(OpMul, s, ts.BV(w, m))
+	if k == nil {
+		return sm, zero, true
+	}
+	kq, kr, okk := in.divByConst(k, c, signed)
+	if !okk {
+		if signed {
+			kq, kr = ts.Arith(OpSDiv, k, c), ts.Arith(OpSRem, k, c)
+		} else {
+			kq, kr = ts.Arith(OpUDiv, k, c), ts.Arith(OpURem, k, c)
+		}
+	}
+	return ts.Arith(OpAdd, sm, kq), kr, true
 }
